@@ -197,7 +197,11 @@ fn explore(scripts: &[Vec<Op>], bound: Option<usize>, max_branches: usize, budge
         let out: Arc<Mutex<Vec<Vec<Obs>>>> = Arc::new(Mutex::new(vec![]));
         let (o, sc) = (out.clone(), scripts.to_vec());
         let r = std::panic::catch_unwind(std::panic::AssertUnwindSafe(|| {
-            loom::model(move || {
+            // (loom's default limit of 1 000 synchronisation steps per execution is far too low for
+            // code that counts or locks inside loops; the limit used for the explored bodies applies)
+            let mut seq = loom::model::Builder::new();
+            seq.max_branches = 2_000_000;
+            seq.check(move || {
                 // (a spawned thread: loom's coroutines have small stacks by default, deeply nested
                 // patterns recurse)
                 let (o, sc) = (o.clone(), sc.clone());
@@ -453,9 +457,9 @@ fn main() {
     for body in &bodies {
         // all schedules (no preemption bound); a body whose schedule space does not close within
         // the budget is explored again completely under preemption bound 2
-        let mut r = explore(body, None, 200_000, budget, 0);
+        let mut r = explore(body, None, 2_000_000, budget, 0);
         if r.capped && r.violation.is_none() {
-            let r2 = explore(body, Some(2), 200_000, budget * 2.0, 0);
+            let r2 = explore(body, Some(2), 2_000_000, budget * 2.0, 0);
             bounded += 1;
             r = HarnessResult { executions: r.executions + r2.executions, outcomes: r.outcomes.max(r2.outcomes), violation: r2.violation, capped: r2.capped, library_thread_left: r.library_thread_left || r2.library_thread_left };
         }
@@ -492,7 +496,7 @@ fn main() {
             if prefill > 200 && tier == Tier::Quick && body.len() == 3 {
                 continue;
             }
-            let r = explore(&body, None, 400_000, budget * 4.0, prefill);
+            let r = explore(&body, None, 2_000_000, budget * 4.0, prefill);
             total_exec += r.executions;
             total_outcomes += r.outcomes;
             if r.capped {
@@ -513,7 +517,7 @@ fn main() {
     let mut sweep_exec = 0usize;
     for &prefill in &fills {
         let body = vec![vec![Op::BuildAPrime], vec![Op::BuildB]];
-        let r = explore(&body, None, 400_000, budget * 4.0, prefill);
+        let r = explore(&body, None, 2_000_000, budget * 4.0, prefill);
         total_exec += r.executions;
         sweep_exec += r.executions;
         if r.capped {
